@@ -12,6 +12,7 @@ import (
 
 // Run a hermes simulation setup
 func (session *HermesSession) Run(workingDir string, args []string, logID string, out chan<- *RunReturn, logout chan<- string) {
+	verifYield("run.start", logID, "")
 
 	returnedWithErr := func() error {
 		// Shared
@@ -356,6 +357,7 @@ func (session *HermesSession) Run(workingDir string, args []string, logID string
 			}
 			g.AKTUELL = g.Kalender(ZEIT)
 
+			verifProbe("daystart", ZEIT, 0, 0, &g, &hermesWaterVar, &nitroSharedVars, &cropSharedVars)
 			oldGrW := g.GRW
 			if g.GROUNDWATERFROM == Polygonfile {
 				g.GRW = g.GW - (g.AMPL * math.Sin((g.TAG.Num+float64(g.GWPhase))*math.Pi/180))
@@ -490,6 +492,7 @@ func (session *HermesSession) Run(workingDir string, args []string, logID string
 			}
 
 			Evatra(&hermesWaterVar, &g, &herPath, ZEIT)
+			verifProbe("evatra", ZEIT, 0, 0, &g, &hermesWaterVar, &nitroSharedVars, &cropSharedVars)
 
 			FSCS := 0.0
 			ZSR := 1.0
@@ -522,6 +525,7 @@ func (session *HermesSession) Run(workingDir string, args []string, logID string
 				}
 			}
 			WDT = 1 / math.Ceil(ZSR)
+			WDT = verifSubsteps(&g, ZEIT, WDT)
 
 			//g.Session.HermesRPCService.SendWdt(&g, ZEIT, WDT)
 
@@ -580,7 +584,9 @@ func (session *HermesSession) Run(workingDir string, args []string, logID string
 				STEPS, WDT = 1, 1
 			}
 			for SUBD := 1; SUBD <= int(STEPS); SUBD++ {
+				verifProbe("water.pre", ZEIT, SUBD, WDT, &g, &hermesWaterVar, &nitroSharedVars, &cropSharedVars)
 				Water(WDT, SUBD, ZEIT, &g, &hermesWaterVar)
+				verifProbe("water.post", ZEIT, SUBD, WDT, &g, &hermesWaterVar, &nitroSharedVars, &cropSharedVars)
 				if SUBD == 1 {
 					SWC := 0.0
 					SWC1 = 0
@@ -621,7 +627,9 @@ func (session *HermesSession) Run(workingDir string, args []string, logID string
 				}
 				// ************ CALCULATION OF NITROGEN DYNAMICS ************
 				// ************ BERECHNUNG DER STICKSTOFFDYNAMIK ************
+				verifProbe("nitro.pre", ZEIT, SUBD, WDT, &g, &hermesWaterVar, &nitroSharedVars, &cropSharedVars)
 				finished, err := Nitro(WDT, SUBD, ZEIT, &g, &nitroSharedVars, &nitroSharedBBBVars, &herPath, &cropOut)
+				verifProbe("nitro.post", ZEIT, SUBD, WDT, &g, &hermesWaterVar, &nitroSharedVars, &cropSharedVars)
 				if err != nil {
 					return err
 				}
@@ -639,6 +647,7 @@ func (session *HermesSession) Run(workingDir string, args []string, logID string
 				Denitr(&g, false)
 			}
 
+			verifProbe("dayend", ZEIT, 0, WDT, &g, &hermesWaterVar, &nitroSharedVars, &cropSharedVars)
 			g.AKTUELL = g.Kalender(ZEIT)
 			if g.YORGAN == 0 {
 				g.HARVEST = g.OBMAS * g.YIFAK
@@ -771,6 +780,7 @@ func (session *HermesSession) Run(workingDir string, args []string, logID string
 	if !result.Success {
 		// execution finished with error, send error to logout channel, or fatal log
 		if logout != nil {
+			verifYield("send.log", logID, "")
 			logout <- result.String()
 		} else {
 			log.Fatal(result.String())
@@ -778,8 +788,10 @@ func (session *HermesSession) Run(workingDir string, args []string, logID string
 	}
 	// execution finished, send result to channel
 	if out != nil {
+		verifYield("send.result", logID, "")
 		out <- result
 	}
+	verifYield("run.end", logID, "")
 
 }
 
